@@ -909,3 +909,40 @@ func init() {
 		return func(s ro.Observable[int]) ro.Observable[int] { return s }
 	}, "NewObservableWithConcurrencyMode", "NewObservable", "NewSafeObservable", "NewUnsafeObservable", "NewEventuallySafeObservable")
 }
+
+type chanPipe struct{ obs ro.Observable[<-chan ro.Notification[int]] }
+
+func (p chanPipe) Subscribe(ctx context.Context, r *rec.Rec, wrapped bool) ro.Subscription {
+	render := func(ch <-chan ro.Notification[int]) string {
+		go func() { // drain so that the producer side is never blocked by the harness
+			for range ch {
+			}
+		}()
+		return "chan"
+	}
+	var o ro.Observer[<-chan ro.Notification[int]]
+	if wrapped {
+		o = rec.WrappedWith[<-chan ro.Notification[int]](r, render)
+	} else {
+		o = rec.RawWith[<-chan ro.Notification[int]](r, render)
+	}
+	if ctx == nil {
+		return p.obs.Subscribe(o)
+	}
+	return p.obs.SubscribeWithContext(ctx, o)
+}
+
+func init() {
+	// ToChannel: the subscriber receives exactly one channel, then Complete once the source ended (content: C17).
+	for _, n := range []int{0, 2} {
+		n := n
+		reg(&Entry{Name: fmt.Sprintf("ToChannel(%d)", n), Family: "ToChannel", Flags: HandOff | Async | NoChain | MultiFeed | Stores,
+			Build: func(b *B) Pipeline { return chanPipe{ro.ToChannel[int](n)(b.S(0))} },
+			Model: m1(func(vs []int, end rec.Kind) ([]string, Term) {
+				if end == rec.Next {
+					return []string{"chan"}, Term{}
+				}
+				return []string{"chan"}, tC
+			})})
+	}
+}
